@@ -947,6 +947,14 @@ def sweeps_stream(ctx, cirq, cg, v2, n):
                 sig = 'sweep:device-parameter-idx-zero'
             ctx.violation(sig, f'sweep_from_proto(sweep_to_proto(s, use_float64={f64})) = {d!r} ({got}); expected {exp} for s = {s!r}', rp)
         else:
+            if isinstance(s, cg.study.FiniteRandomVariable) and len(s.distribution) > 1:
+                # the wire format is a map: its order is unspecified (and differs from run to run), so every ordering of the
+                # distribution is a legitimate decoding; all of them compare equal and must then yield the same values
+                alt = cg.study.FiniteRandomVariable(s.key, distribution=dict(reversed(list(s.distribution.items()))), seed=s.seed, length=s.length, metadata=s.metadata)
+                if alt == s and sweep_values(alt) != sweep_values(s):
+                    ctx.violation('sweep:finite-random-variable-order',
+                                  f'{s!r} and the same sweep with its distribution listed in another order (what a decoded proto map may give) are equal but yield '
+                                  f'{sweep_values(s)} and {sweep_values(alt)}', rp)
             e_vals, g_vals = sweep_values(round_sweep(cirq, s, f64)), sweep_values(d)
             if e_vals != g_vals:
                 sig = 'sweep:finite-random-variable-order' if 'FiniteRandomVariable' in repr(s) else 'sweep:values'
